@@ -13,13 +13,17 @@ def getVSpace (j : Json) : Except String VSpace := do
   | _, _ => throw "space must be {grid:shape} or {graph:n}"
 
 def getVPos (j : Json) : Except String VPos := do
-  match fieldOpt j "p", fieldOpt j "xyz" with
-  | some p, _ => return .num (← getInt p)
-  | _, some c =>
+  match fieldOpt j "p", fieldOpt j "xyz", fieldOpt j "obj" with
+  | some p, _, _ => return .num (← getInt p)
+  | _, some c, _ =>
     match ← getIntList c with
     | [x, y, z] => return .xyz x y z
     | _ => throw "xyz must have three entries"
-  | _, _ => throw "pos must be {p:i} or {xyz:[x,y,z]}"
+  | _, _, some c =>
+    match ← getIntList c with
+    | [x, y, z] => return .obj x y z
+    | _ => throw "obj must have three entries"
+  | _, _, _ => throw "pos must be {p:i}, {xyz:[x,y,z]} or {obj:[x,y,z]}"
 
 def getSpeciesRef (j : Json) : Except String SpeciesRef := do
   match fieldOpt j "idx", fieldOpt j "label" with
